@@ -687,11 +687,18 @@ func (s *recordingSpan) dedupeAttrs() {
 func (s *recordingSpan) dedupeAttrsFromRecord(record map[attribute.Key]int) {
 	// Use the fact that slices share the same backing array.
 	unique := s.attributes[:0]
-	for _, a := range s.attributes {
+	for i, a := range s.attributes {
 		if idx, ok := record[a.Key]; ok {
 			unique[idx] = a
 		} else {
-			unique = append(unique, a)
+			if len(unique) == i {
+				// Nothing has been removed so far, a is in place already. Do
+				// not write it again: a snapshot of an ended span shares this
+				// backing array and may be read concurrently.
+				unique = s.attributes[:i+1]
+			} else {
+				unique = append(unique, a)
+			}
 			record[a.Key] = len(unique) - 1
 		}
 	}
